@@ -9,5 +9,6 @@ int main(int argc, char **argv) {
     RUN("scheduler_threads", 1, true, scn::scheduler_threads(o, R, T, o.cases / 100 + 1));
     RUN("scheduler_stop_race", 1, true, scn::scheduler_stop_race(o, R, T, o.cases / 20 + 1));
     RUN("scheduler_interval_stop", 1, true, scn::scheduler_interval_stop(o, R, T, o.cases / 300 + 1));
+    RUN("scheduler_pool_rearm", 1, true, scn::scheduler_pool_rearm(o, R, o.cases / 300 + 1));
     return 0;
 }
